@@ -8,17 +8,20 @@ package wallet
 //   (2) detach(attach(S, b), b) == S on those outputs.
 
 //verif:property C24
-//verif:bound block of one transaction built by the real types.NewTx / MapTx: one input (spend / veto / coinbase) and 1..2 outputs (first: original or vote; second: the other kind, paying the wallet); amounts arbitrary 64-bit (0 included), vote key 2 arbitrary bytes; control program of the input and of the first output one of {wallet P2WPKH program, P2WPKH program the wallet may or may not own (arbitrary), non-segwit contract program}; spends and first original outputs carry a non-BTM asset, the rest BTM; block height arbitrary below 2^62
+//verif:bound single-transaction blocks built by the real types.NewTx / MapTx: one input (spend / veto / coinbase) and 1 output (quick) or 2 outputs (thorough; first: original or vote; second: the other kind, paying the wallet); amounts arbitrary 64-bit (0 included), vote keys 2 arbitrary bytes; program menu {wallet P2WPKH, P2WPKH the wallet may or may not own (arbitrary), non-segwit contract program, wallet P2WSH (32-byte witness program, multi-signature account), wallet "straightforward" OP_TRUE program}: the input takes any of the 5, the first output the input's program or the one two places further (every program occurs in both roles; the wallet treats inputs and outputs independently); spends and first original outputs carry a non-BTM asset, the rest BTM; block height arbitrary below 2^62
+//verif:bound chained blocks (VerifC24Chain): tx1 = [spend of a pre-existing output] -> [O1 original or vote], tx2 = [spend / veto of O1] -> [O2 original], both built by the real types.NewTx; O1's program any of the 5 (one obligation each), the pre-existing output and O2 pay the next / third-next program of the menu; three arbitrary 64-bit amounts (0 included), arbitrary vote key and height
 //verif:bound wallet table before the block: a record for the spent output exists iff the wallet owns its program (as a rescan would have it), with arbitrary bookkeeping fields
-//verif:assume vote outputs and veto inputs carry BTM (consensus rule); the spent output is not an output of the spending transaction; ids are SHA3 hashes modelled as an uninterpreted collision-free function
+//verif:assume vote outputs and veto inputs carry BTM (consensus rule); the spent output is not an output of the spending transaction or of a later transaction (ids of the pre-existing output, O1 and O2 differ); ids are SHA3 hashes modelled as an uninterpreted collision-free function
 //verif:assume solver side: json.Marshal / json.Unmarshal of account.UTXO and account.CtrlProgram are replaced by a handle table (value semantics, lossless), bc.Hash.String (protobuf text) by an injective byte encoding; the native replay uses the real ones
-//verif:outside walletUpdater goroutine and its reorganisation walk, account manager, GetAccountUtxos iteration, transaction index, ValidHeight of the records (property C25)
+//verif:outside blocks of more than two transactions or with more than one input per transaction, walletUpdater goroutine and its reorganisation walk, account manager, GetAccountUtxos iteration, transaction index, ValidHeight of the records (property C25)
 //verif:override encoding/json.Marshal -> verifC24Marshal
 //verif:override encoding/json.Unmarshal -> verifC24Unmarshal
 //verif:override (*github.com/bytom/bytom/protocol/bc.Hash).String -> verifC24HashString
 //verif:obligation fn=VerifC24AttachDetach args=0,0,1;1,1,1;2,0,1 validate=10 secs=1800
 //verif:obligation fn=VerifC24AttachDetach args=0,1,1;1,0,1;2,1,1 secs=1800
 //verif:obligation fn=VerifC24AttachDetach args=0,0,2;0,1,2;1,0,2;1,1,2;2,0,2;2,1,2 tier=thorough secs=3000
+//verif:obligation fn=VerifC24Chain args=0,0;1,3 validate=24 secs=1800
+//verif:obligation fn=VerifC24Chain args=0,1;0,2;0,3;0,4;1,0;1,1;1,2;1,4 secs=1800
 
 import (
 	"bytes"
@@ -81,8 +84,12 @@ var (
 	verifC24ProgA = append([]byte{0x00, 0x14}, bytes.Repeat([]byte{0xa1}, 20)...) // P2WPKH, owned
 	verifC24ProgB = append([]byte{0x00, 0x14}, bytes.Repeat([]byte{0xb2}, 20)...) // P2WPKH, owned or not
 	verifC24ProgC = []byte{0x51, 0x51, 0x87}                                      // not a segwit program
+	verifC24ProgD = append([]byte{0x00, 0x20}, bytes.Repeat([]byte{0xd4}, 32)...) // P2WSH (multi-signature account), owned
+	verifC24ProgE = []byte{0x51}                                                  // "straightforward" OP_TRUE program, owned
 	verifC24Other = bc.AssetID{V0: 7, V1: 7}
 )
+
+const verifC24NProg = 5
 
 func verifC24Prog(k int) []byte {
 	switch k {
@@ -90,8 +97,36 @@ func verifC24Prog(k int) []byte {
 		return verifC24ProgA
 	case 1:
 		return verifC24ProgB
+	case 3:
+		return verifC24ProgD
+	case 4:
+		return verifC24ProgE
 	}
 	return verifC24ProgC
+}
+
+// verifC24Wallet registers the wallet's control programs; B is owned or not.
+func verifC24Wallet(db dbm.DB) func(pk int) (string, bool) {
+	ownsB := verifBool("ownsB")
+	verifC24Own(db, verifC24ProgA, "acc-a")
+	if ownsB {
+		verifC24Own(db, verifC24ProgB, "acc-b")
+	}
+	verifC24Own(db, verifC24ProgD, "acc-d")
+	verifC24Own(db, verifC24ProgE, "acc-e")
+	return func(pk int) (string, bool) {
+		switch {
+		case pk == 0:
+			return "acc-a", true
+		case pk == 1 && ownsB:
+			return "acc-b", true
+		case pk == 3:
+			return "acc-d", true
+		case pk == 4:
+			return "acc-e", true
+		}
+		return "", false
+	}
 }
 
 func verifC24Own(db dbm.DB, prog []byte, acc string) {
@@ -137,24 +172,11 @@ func VerifC24AttachDetach(inKind int, outKind int, nOut int) {
 	w := &Wallet{DB: db}
 	verifC24Utxos, verifC24CPs = nil, nil
 
-	ownsB := verifBool("ownsB")
-	verifC24Own(db, verifC24ProgA, "acc-a")
-	if ownsB {
-		verifC24Own(db, verifC24ProgB, "acc-b")
-	}
-	owner := func(pk int) (string, bool) {
-		switch {
-		case pk == 0:
-			return "acc-a", true
-		case pk == 1 && ownsB:
-			return "acc-b", true
-		}
-		return "", false
-	}
+	owner := verifC24Wallet(db)
 
 	// the transaction
 	inAmount := verifU64("inAmount")
-	inProg := verifChoice("inProg", 3)
+	inProg := verifChoice("inProg", verifC24NProg)
 	inAsset := *consensus.BTMAssetID
 	if inKind == 0 {
 		inAsset = verifC24Other
@@ -179,7 +201,9 @@ func VerifC24AttachDetach(inKind int, outKind int, nOut int) {
 	var specs []outSpec
 	var outs []*types.TxOutput
 	for j := 0; j < nOut; j++ {
-		s := outSpec{vote: outKind == 1, prog: verifChoice("outProg", 3), amount: verifU64("outAmount"), asset: *consensus.BTMAssetID}
+		// the wallet handles input and output programs independently: the first output pays the
+		// input's program or the one two places further in the menu (every program in both roles)
+		s := outSpec{vote: outKind == 1, prog: (inProg + 2*verifChoice("outProg", 2)) % verifC24NProg, amount: verifU64("outAmount"), asset: *consensus.BTMAssetID}
 		if j > 0 {
 			// further outputs: the other kind, paying the wallet's own program
 			s.vote, s.prog = outKind != 1, 0
@@ -265,4 +289,92 @@ func VerifC24AttachDetach(inKind int, outKind int, nOut int) {
 		}
 	}
 	verifReach("VerifC24AttachDetach:end")
+}
+
+// VerifC24Chain: a block of two chained transactions, tx1 = [spend of a
+// pre-existing output] -> [O1], tx2 = [spend / veto of O1] -> [O2]. kind1: O1
+// is 0 original, 1 vote; q: menu index of O1's program. After attach the
+// wallet holds what a rescan lists (O1 is already spent), after detach
+// exactly the table it held before the block.
+func VerifC24Chain(kind1 int, q int) {
+	height := verifU64("height")
+	verifAssume(height < 1<<62)
+	db := dbm.NewMemDB()
+	w := &Wallet{DB: db}
+	verifC24Utxos, verifC24CPs = nil, nil
+	owner := verifC24Wallet(db)
+	p0, r := (q+1)%verifC24NProg, (q+3)%verifC24NProg // programs of the pre-existing output and of O2
+
+	a0, a1, a2 := verifU64("amount0"), verifU64("amount1"), verifU64("amount2")
+	key := verifBytesN("voteKey", 2)
+	btm := *consensus.BTMAssetID
+	in1 := types.NewSpendInput(nil, bc.Hash{V0: 1}, btm, a0, 1, verifC24Prog(p0), nil)
+	var out1 *types.TxOutput
+	if kind1 == 1 {
+		out1 = types.NewVoteOutput(btm, a1, verifC24Prog(q), key, nil)
+	} else {
+		out1 = types.NewOriginalTxOutput(btm, a1, verifC24Prog(q), nil)
+	}
+	tx1 := types.NewTx(types.TxData{Version: 1, Inputs: []*types.TxInput{in1}, Outputs: []*types.TxOutput{out1}})
+	id1 := *tx1.OutputID(0)
+
+	// tx2 spends O1: the spend commitment repeats O1's source, value and program
+	var in2 *types.TxInput
+	if kind1 == 1 {
+		o := tx1.Entries[id1].(*bc.VoteOutput)
+		in2 = types.NewVetoInput(nil, *o.Source.Ref, btm, a1, o.Source.Position, verifC24Prog(q), key, nil)
+	} else {
+		o := tx1.Entries[id1].(*bc.OriginalOutput)
+		in2 = types.NewSpendInput(nil, *o.Source.Ref, btm, a1, o.Source.Position, verifC24Prog(q), nil)
+	}
+	out2 := types.NewOriginalTxOutput(btm, a2, verifC24Prog(r), nil)
+	tx2 := types.NewTx(types.TxData{Version: 1, Inputs: []*types.TxInput{in2}, Outputs: []*types.TxOutput{out2}})
+	id2 := *tx2.OutputID(0)
+	verifAssert(tx2.SpentOutputIDs[0] == id1, "harness-tx2-spends-o1")
+	block := &types.Block{BlockHeader: types.BlockHeader{Height: height}, Transactions: []*types.Tx{tx1, tx2}}
+
+	// wallet table before the block
+	prevID := tx1.SpentOutputIDs[0]
+	// an output is created after the outputs its transaction (or an ancestor) spends
+	verifAssume(prevID != id1 && prevID != id2 && id1 != id2)
+	if acc, ok := owner(p0); ok {
+		u := &account.UTXO{OutputID: prevID, SourceID: bc.Hash{V0: 1}, AssetID: btm, Amount: a0, SourcePos: 1,
+			ControlProgram: verifC24Prog(p0), AccountID: acc, Address: "addr-" + acc, ControlProgramIndex: 5, ValidHeight: verifU64("prevValidHeight")}
+		data, _ := json.Marshal(u)
+		db.Set(account.StandardUTXOKey(prevID), data)
+	}
+	prev := verifC24Get(db, prevID)
+
+	batch := db.NewBatch()
+	w.attachUtxos(batch, block)
+	batch.Write()
+
+	// (1) rescan reference: the pre-existing output and O1 are spent, O2 is listed iff it is the wallet's
+	verifAssert(!verifC24Get(db, prevID).present, "attach-removes-spent-output")
+	verifAssert(!verifC24Get(db, id1).present, "attach-removes-output-spent-in-the-block")
+	got := verifC24Get(db, id2)
+	acc, owned := owner(r)
+	want := owned && a2 != 0
+	verifObserveBool("recorded", got.present)
+	verifAssert(got.present == want, "attach-records-exactly-the-wallet-outputs")
+	if got.present && want {
+		exp := &account.UTXO{OutputID: id2, AssetID: btm, Amount: a2, ControlProgram: verifC24Prog(r), AccountID: acc}
+		verifAssert(verifC24SameFields(&got.u, exp), "attach-record-fields")
+	}
+	verifReach("VerifC24Chain:attached")
+
+	// (2) detach: exactly the table before the block
+	batch = db.NewBatch()
+	w.detachUtxos(batch, block)
+	batch.Write()
+	back := verifC24Get(db, prevID)
+	verifObserveBool("restored", back.present)
+	verifAssert(back.present == prev.present, "detach-restores-exactly-the-wallet-outputs")
+	if back.present && prev.present {
+		verifAssert(verifC24SameFields(&back.u, &prev.u), "detach-restored-record-fields")
+	}
+	verifObserveBool("intermediateLeft", verifC24Get(db, id1).present)
+	verifAssert(!verifC24Get(db, id1).present, "detach-removes-output-created-and-spent-in-the-block")
+	verifAssert(!verifC24Get(db, id2).present, "detach-removes-created-outputs")
+	verifReach("VerifC24Chain:end")
 }
